@@ -213,6 +213,12 @@ def validator_bodies(analysis: Analysis, res: RuleResult) -> None:
     res.add("C03-R3b", f"{qual}: exactly three comma separated fields, each checked as float", ok, w, "split(',') into three, three Coerce(float) checks on every accepting path" if ok else f"accepting paths: {[(r['split_sep'], r['floats']) for r in acc]}", next((r["witness"] for r in acc if not (r["split_sep"] == "," and r["floats"] == 3)), None))
     bad = [r for r in rows if r["kind"] == "raise" and r["exc"] not in ("Invalid", "MultipleInvalid")]
     res.add("C03-R3b", f"{qual}: wrong field count / non-float become vol.Invalid", not bad, w, "" if not bad else f"{bad[0]['exc']}: {bad[0]['what']}", bad[0]["witness"] if bad else None)
+    is_version_floor(analysis, res, "C03-R3b")
+
+
+def is_version_floor(analysis: Analysis, res: RuleResult, rule: str) -> None:
+    """is_version rejects what sorts below 1.4 - and what AwesomeVersion cannot compare - by the raw
+    AwesomeVersion comparison `AwesomeVersion("1.4") > AwesomeVersion(value)` (shared by C03-R3b and C18-R3)."""
     info = _func(analysis, "validation:is_version")
     floor = None
     for n in ast.walk(info.node):
@@ -223,7 +229,7 @@ def validator_bodies(analysis: Analysis, res: RuleResult) -> None:
             for const_side, val_side, ops in ((l, r, ("Gt",)), (r, l, ("Lt",))):
                 if const_side.startswith("AwesomeVersion('") and val_side.startswith("AwesomeVersion(") and op in ops and raises:
                     floor = const_side[len("AwesomeVersion('") : -2]
-    res.add("C03-R3b", "validation:is_version: rejects versions below 1.4", floor == "1.4", common.where(analysis, info, info.node), f"lower bound {floor!r}")
+    res.add(rule, "validation:is_version: rejects versions below 1.4", floor == "1.4", common.where(analysis, info, info.node), f"lower bound {floor!r}")
 
 
 # ------------------------------------------------------------------------------------ R4
@@ -341,6 +347,11 @@ def header_worker(analysis: Analysis, ver: str) -> List[dict]:
                                 elif isinstance(x, ExtObj):
                                     stack.extend(x.args)
                                     stack.extend(x.kwargs.values())
+                escapes = sorted({f"{v.cls.__name__} at {v.site}: {v.what}" for kind, s, v in outs if kind == "raise" and not issubclass(v.cls, VOL_INVALID)})
+                if escapes:
+                    out.append({"case": case, "field": "*", "ok": False, "detail": f"Message.validate raises {escapes[0][:140]} for this header instead of rejecting it with vol.Invalid: the caller only handles vol.Invalid"})
+                    if attrs is None:
+                        continue
                 if attrs is None:
                     out.append({"case": case, "field": "*", "ok": None, "detail": "schema(self) call with an attribute dict not found in Message.validate"})
                     continue
